@@ -3,6 +3,7 @@
 mod envcheck;
 mod envx;
 mod graphx;
+mod hdlc;
 mod repeatx;
 mod ring;
 mod subjects;
@@ -32,6 +33,7 @@ fn main() {
             "envx" => env_replay(&v),
             "graphx" => graphx::replay_json(&v["replay"]),
             "repeatx" => repeatx::replay_json(&v["replay"]),
+            "hdlc" => hdlc::replay_json(&v["replay"]),
             e => Err(format!("unknown engine {e:?}")),
         };
         match r {
@@ -56,6 +58,7 @@ fn main() {
         "env" => env_run(prop, tier, shard),
         "graph" => graphx::run(tier, shard),
         "repeat" => repeatx::run(tier),
+        "hdlc" => hdlc::run(tier, shard),
         _ => usage(),
     };
     rep.emit();
